@@ -35,3 +35,7 @@ claim("C04", "DESIGN.md 3/C04",
       "event graph over histories of flag vectors: every sequence of <=3 vectors (length<=2, entries over flags / non-flags / masked-with-adversarial-data) through qartod_compare, aggregate() and PandasStore.compute_aggregate()+save(), every split re-folded; each history compared with an order-free per-position reference, which decides commutativity, idempotence and associativity inside the bound",
       "vectors of length<=2 (thorough 3), <=3 (thorough 4) vectors; trusts refmodel/qc.py aggregate()",
       TECH_GRAPH)
+claim("C01", "DESIGN.md 3/C01",
+      "prefix tree: 11 functions x 38 parameter sets x every series of length 0..5 (thorough 7) as ndarray and list (None/NaN), each executed twice on the same argument objects (no exception, one valid unmasked flag per element, shape, arguments byte-identical, repeat identical); event graph: every call history of depth<=3 (thorough 4) over 14 operations sharing the same argument objects - results and module state must be history independent",
+      "does not judge which flag; 1-D inputs; None markers via list carriers only",
+      TECH_TREE + "; " + TECH_GRAPH)
